@@ -416,7 +416,9 @@ def union_attr_lint(ctx, sites: Iterable[Tuple[str, str]], classes=("Symbol", "C
     for q, var in sites:
         f = repo.func(q)
         ctx.analysed(q)
-        fl = Flow(f.node, resolver=Resolver(f.node)).run()
+        res = Resolver(f.node)
+        fl = Flow(f.node, resolver=res).run()
+        forms = {var, ast.unparse(res.resolve(ast.Name(id=var, ctx=ast.Load())))}
         k = 0
         for n in own_nodes(repo, f):
             if not (isinstance(n, ast.Attribute) and isinstance(n.value, ast.Name) and n.value.id == var):
@@ -427,7 +429,7 @@ def union_attr_lint(ctx, sites: Iterable[Tuple[str, str]], classes=("Symbol", "C
             owners = [c for c in classes if n.attr in members[c]]
             construct = f"{f.short}/{var}.{n.attr} #{k} read only where `{var}` is known to be a {' or '.join(owners) or '?'}"
             gs = fl.guards_at(n) or set()
-            typed = any((f"type({var})" in key or f"isinstance({var}," in key or f"{var}.__class__" in key) for key, pol in gs)
+            typed = any((f"type({v})" in key or f"isinstance({v}," in key or f"{v}.__class__" in key) for key, pol in gs for v in forms)
             if typed:
                 ctx.ok(construct, f.loc(n))
             else:
